@@ -1,5 +1,5 @@
 import BHS.Props.C03
-import BHS.Props.SqlShape
+import BHS.Props.SqlShape.Add
 open BHS.Props.C03
 #print axioms C03_stored_row
 #print axioms C03_work_exact
